@@ -54,6 +54,10 @@ type readWriteSegment struct {
 
 	segmentSize uint32
 	closed      bool
+
+	// flushMutex serializes Flush() with the unmapping done by Close()
+	flushMutex sync.Mutex
+	unmapped   bool
 }
 
 func newReadWriteSegment(basePath string, baseOffset int64, segmentSize uint32, lastCrc uint32,
@@ -168,6 +172,14 @@ func (ms *readWriteSegment) Append(offset int64, data []byte) error {
 }
 
 func (ms *readWriteSegment) Flush() error {
+	// The sync goroutine of the wal flushes the segment it has seen as the current one without holding
+	// the wal lock: the segment may be closed by a rollover meanwhile. Close() flushes before unmapping,
+	// so there is nothing left to do then (and the unmapped region must not be touched).
+	ms.flushMutex.Lock()
+	defer ms.flushMutex.Unlock()
+	if ms.unmapped {
+		return nil
+	}
 	return ms.txnMappedFile.Flush()
 }
 
@@ -185,7 +197,11 @@ func (ms *readWriteSegment) Close() error {
 	}
 	ms.closed = true
 
+	ms.flushMutex.Lock()
+	defer ms.flushMutex.Unlock()
+	ms.unmapped = true
 	err := multierr.Combine(
+		ms.txnMappedFile.Flush(),
 		ms.txnMappedFile.Unmap(),
 		ms.txnFile.Close(),
 		// Write index file
